@@ -54,6 +54,7 @@ Fixpoint collect_loop (fuel : nat) (r : reader) (e : Z) (textKind : Z) (escapes 
     else
       (* escapes handling; returns either a "continue" state or falls through to the common tail *)
       let tail (r : reader) (plainStart : Z) (acc : list inline) :=
+        if e <=? r_pos r then (acc, plainStart) else   (* a backslash was the last byte of the range *)
         let '(ok, r1) := next r in
         if negb ok then (acc, plainStart) else
         if jumped r1 then
